@@ -2,9 +2,9 @@ import RpmVerif.Lemmas.FileCaps
 /-!
 # C19 — capability text is accepted only when every clause is well formed
 
-All theorems quantify over **all** strings (lists of byte codes of any length; the ASCII hypothesis is
-not even needed for the statements about the model — it is what makes the model faithful to the Rust
-code, and the correspondence run checks that).
+All theorems quantify over **all** strings: lists of Unicode code points of any length, ASCII or not
+(a Rust `String` is such a list; the statements do not even need the elements to be valid scalar
+values).
 
 * model: `RpmVerif.FileCaps.validateCapsText` etc. (`Model/FileCaps.lean`, mirrors `src/rpm/filecaps.rs`)
 * spec : `RpmVerif.FileCaps.Spec` (`Spec/FileCaps.lean`): `WellFormed` (must accept), `Admissible`
@@ -20,7 +20,8 @@ abbrev Str := FileCaps.Str
 abbrev Accepts (s : Str) : Prop := validateCapsText s = .ok ()
 
 /-- The code implements the grammar of the spec under one particular reading of its two ambiguous
-points (a flagless last group is accepted, `all` only on its own; U+000B separates). -/
+points (a flagless last group is accepted, `all` only on its own; U+000B and the non-ASCII `White_Space`
+code points separate). -/
 theorem caps_accepts_iff_code_reading (s : Str) : Accepts s ↔ wf codeReading s = true :=
   validateCapsText_ok_iff_wf s
 
@@ -45,18 +46,24 @@ theorem caps_iff (s : Str) (hdc : ¬ DontCare s) : Accepts s ↔ WellFormed s :=
   · exact caps_accept_of_wellFormed s
 
 /-- The don't-care region is no larger than the three silent points of the sentence: a don't-care
-text contains U+000B, or one of its clauses ends with an operator (flagless last group), or one of
-its clauses has `all` as an item of a comma list with at least two items. -/
+text contains doubtful whitespace (U+000B or a non-ASCII `White_Space` code point), or one of its
+clauses ends with an operator (flagless last group), or one of its clauses has `all` as an item of a
+comma list with at least two items. -/
 theorem dontcare_where_silent (s : Str) (h : DontCare s) :
-    11 ∈ s ∨ ∃ c ∈ words s, EndsWithOp c ∨ AllInList c := by
-  by_cases hvt : 11 ∈ s
+    (∃ x ∈ s, isDoubtfulSpace x = true) ∨ ∃ c ∈ words s, EndsWithOp c ∨ AllInList c := by
+  by_cases hvt : ∃ x ∈ s, isDoubtfulSpace x = true
   · exact Or.inl hvt
   · right
+    have hvt' : s.all (fun c => !isDoubtfulSpace c) = true := by
+      rw [List.all_eq_true]; intro x hx
+      cases hd : isDoubtfulSpace x
+      · rfl
+      · exact absurd ⟨x, hx, hd⟩ hvt
     have hl := (wf_iff lenient s).mp h.1
     have hs : wf strict s = false := by
       cases hw : wf strict s
       · rfl
-      · exact absurd ⟨hw, hvt⟩ h.2
+      · exact absurd ⟨hw, hvt'⟩ h.2
     have hne : (words s).isEmpty = false := by
       cases hh : (words s).isEmpty
       · rfl
@@ -156,7 +163,95 @@ theorem caps_verbatim (s : Str) :
   | err e => rw [hv] at h; cases h
   | panic p => rw [hv] at h; cases h
 
-/-! ### non-vacuity: concrete texts (byte codes written out) -/
+/-! ### non-ASCII text -/
+
+/-- the name list of a clause: the part before its first operator character -/
+def nameListOf (c : Str) : Str := c.takeWhile (fun ch => !isOp ch)
+
+/-- A clause with a non-ASCII code point (anywhere: in a name, between names, in the operator/flag
+part) is rejected by the model's clause check and is not a clause of the grammar under any reading. -/
+theorem clause_nonascii_rejected (c : Str) (x : Nat) (hx : x ∈ c) (h128 : 128 ≤ x) :
+    (∃ cls, validateClause c = .err cls) ∧ ∀ rd, clause rd c = false := by
+  have hno : ∀ rd, clause rd c = false := by
+    intro rd
+    cases h : clause rd c
+    · rfl
+    · have := clause_ascii h x hx; omega
+  refine ⟨?_, hno⟩
+  cases hv : validateClause c with
+  | ok u =>
+    cases u
+    have := clause_code_of_ok hv
+    rw [hno] at this; cases this
+  | err cls => exact ⟨cls, rfl⟩
+  | panic p => have := validateClause_not_panic c; rw [hv] at this; cases this
+
+/-- Any text in which a code point ≥ 128 that is not `White_Space` occurs is rejected by the model and
+must be rejected according to the spec — whatever else the text contains. -/
+theorem caps_nonascii_rejected (s : Str) (x : Nat) (hx : x ∈ s) (h128 : 128 ≤ x) (hws : isSpace x = false) :
+    (∃ cls, validateCapsText s = .err cls) ∧ demand s = .mustReject := by
+  obtain ⟨c, hc, hxc⟩ := mem_words_of_mem hx hws
+  have hnw : ∀ rd, wf rd s = false := fun rd => not_wf_of_nonascii hc hxc h128
+  have hna : ¬ Accepts s := by
+    intro h
+    have := (validateCapsText_ok_iff_wf s).mp h
+    rw [hnw] at this; cases this
+  refine ⟨?_, ?_⟩
+  · cases hv : validateCapsText s with
+    | ok u => cases u; exact absurd hv hna
+    | err cls => exact ⟨cls, rfl⟩
+    | panic p =>
+      have : (validateCapsText s).isPanic = false := by
+        unfold validateCapsText; split
+        · rfl
+        · exact clauseLoop_not_panic _
+      rw [hv] at this; cases this
+  · have h1 : ¬ WellFormed s := fun h => by have := h.1; rw [hnw] at this; cases this
+    have h2 : ¬ Admissible s := fun h => by have := h; rw [Admissible, hnw] at this; cases this
+    simp [demand, h1, h2]
+
+/-- **A clause whose name list contains a code point ≥ 128 is rejected** — by the model (an error, for
+the clause on its own and for every text it is a clause of) and by the spec (`mustReject`) —
+whatever else the text contains.  (`c ∈ words s`: `c` is one of the maximal `White_Space`-free runs of
+`s`; its name list is the part before the first of `=`, `+`, `-`.)  This is the statement the code
+before `fix:` e20037b violated, see `old_unicode_upper_witness`. -/
+theorem caps_nonascii_name_rejected (s c : Str) (hc : c ∈ words s) (x : Nat) (hx : x ∈ nameListOf c)
+    (h128 : 128 ≤ x) :
+    (∃ cls, validateClause c = .err cls) ∧ (∃ cls, validateCapsText s = .err cls) ∧ demand s = .mustReject := by
+  have hxc : x ∈ c := (List.takeWhile_sublist _).subset hx
+  have hws : isSpace x = false := words_no_space c hc x hxc
+  have hxs : x ∈ s := mem_of_mem_words s c hc x hxc
+  have h := caps_nonascii_rejected s x hxs h128 hws
+  exact ⟨(clause_nonascii_rejected c x hxc h128).1, h.1, h.2⟩
+
+/-- a text that must be accepted is pure ASCII (so every demand to accept is a demand on ASCII text;
+non-ASCII text is either don't-care — Unicode whitespace — or must be rejected) -/
+theorem wellFormed_ascii (s : Str) (h : WellFormed s) : ∀ x ∈ s, x < 128 := by
+  intro x hx
+  cases hws : isSpace x
+  · obtain ⟨c, hc, hxc⟩ := mem_words_of_mem hx hws
+    exact clause_ascii (((wf_iff strict s).mp h.1).2 c hc) x hxc
+  · have hd := List.all_eq_true.mp h.2 x hx
+    exact isSpace_ascii hws (by simpa using hd)
+
+/-- the parameterised validator (the code before `fix:` e20037b) at the ASCII upper-casing is the model -/
+theorem caps_with_ascii_upper (s : Str) : validateCapsTextWith (fun c => [toAsciiUpper c]) s = validateCapsText s :=
+  validateCapsTextWith_ascii s
+
+/-- **The defect fixed by e20037b, as a theorem.**  With a Unicode-style upper-casing (`to_uppercase`:
+U+0131 dotless i ↦ `I`, U+017F long s ↦ `S`) in place of `to_ascii_uppercase`, the validator accepts
+"cap_kıll=ep" and "cap_ſetuid=ep", which the spec demands to be rejected (they name no capability) and
+which the model of the present code rejects. -/
+theorem old_unicode_upper_witness :
+    (validateCapsTextWith unicodeUpperSample [99,97,112,95,107,0x131,108,108,61,101,112] = .ok () ∧
+      demand [99,97,112,95,107,0x131,108,108,61,101,112] = .mustReject ∧
+      validateCapsText [99,97,112,95,107,0x131,108,108,61,101,112] = .err "unknown-cap") ∧
+    (validateCapsTextWith unicodeUpperSample [99,97,112,95,0x17F,101,116,117,105,100,61,101,112] = .ok () ∧
+      demand [99,97,112,95,0x17F,101,116,117,105,100,61,101,112] = .mustReject ∧
+      validateCapsText [99,97,112,95,0x17F,101,116,117,105,100,61,101,112] = .err "unknown-cap") := by
+  decide
+
+/-! ### non-vacuity: concrete texts (code points written out) -/
 
 -- "cap_chown=p"
 example : WellFormed [99,97,112,95,99,104,111,119,110,61,112] ∧ Accepts [99,97,112,95,99,104,111,119,110,61,112] := by decide
@@ -184,8 +279,30 @@ example : DontCare [99,97,112,95,99,104,111,119,110,43] ∧ Accepts [99,97,112,9
 example : DontCare [61] ∧ Accepts [61] := by decide
 -- "all,cap_chown=e" (`all` inside a comma list) is don't-care and the code rejects it;
 example : DontCare [97,108,108,44,99,97,112,95,99,104,111,119,110,61,101] ∧ ¬ Accepts [97,108,108,44,99,97,112,95,99,104,111,119,110,61,101] := by decide
--- "=e\x0b=p" (vertical tab as the separator) is don't-care and the code accepts it.
+-- "=e\x0b=p" (vertical tab as the separator) is don't-care and the code accepts it;
 example : DontCare [61,101,11,61,112] ∧ Accepts [61,101,11,61,112] := by decide
+-- "=e\u{a0}=p", "cap_chown=e\u{3000}", "\u{85}=e" (non-ASCII White_Space) are don't-care and the code accepts them.
+example : DontCare [61,101,0xA0,61,112] ∧ Accepts [61,101,0xA0,61,112] := by decide
+example : DontCare [99,97,112,95,99,104,111,119,110,61,101,0x3000] ∧ Accepts [99,97,112,95,99,104,111,119,110,61,101,0x3000] := by decide
+example : DontCare [0x85,61,101] ∧ Accepts [0x85,61,101] := by decide
+-- "=e\u{a0}+p": ill formed even when U+00A0 separates → must be rejected, is rejected; "\u{2003}": no clause
+example : demand [61,101,0xA0,43,112] = .mustReject ∧ validateCapsText [61,101,0xA0,43,112] = .err "first-char" := by decide
+example : demand [0x2003] = .mustReject ∧ validateCapsText [0x2003] = .err "empty" := by decide
+-- U+200B (zero width space) is not White_Space: "=e\u{200b}=p" is one ill-formed clause
+example : demand [61,101,0x200B,61,112] = .mustReject ∧ validateCapsText [61,101,0x200B,61,112] = .err "suffix-char" := by decide
+-- non-ASCII in names / operators / flags: "cap_\u{212a}ill=e" (Kelvin sign), "cap_fßetid=e", "cap_chown＝e" (U+FF1D),
+-- "cap_chown=é", "é": must be rejected, are rejected
+example : demand [99,97,112,95,0x212A,105,108,108,61,101] = .mustReject ∧ validateCapsText [99,97,112,95,0x212A,105,108,108,61,101] = .err "unknown-cap" := by decide
+example : demand [99,97,112,95,102,0xDF,101,116,105,100,61,101] = .mustReject ∧ validateCapsText [99,97,112,95,102,0xDF,101,116,105,100,61,101] = .err "unknown-cap" := by decide
+example : demand [99,97,112,95,99,104,111,119,110,0xFF1D,101] = .mustReject ∧ validateCapsText [99,97,112,95,99,104,111,119,110,0xFF1D,101] = .err "no-op" := by decide
+example : demand [99,97,112,95,99,104,111,119,110,61,0xE9] = .mustReject ∧ validateCapsText [99,97,112,95,99,104,111,119,110,61,0xE9] = .err "suffix-char" := by decide
+example : demand [0xE9] = .mustReject ∧ validateCapsText [0xE9] = .err "no-op" := by decide
+-- the hypotheses of `caps_nonascii_name_rejected` are satisfiable: "=e cap_kıll=ep", second word, x = U+0131
+example : [99,97,112,95,107,0x131,108,108,61,101,112] ∈ words [61,101,32,99,97,112,95,107,0x131,108,108,61,101,112] ∧
+    0x131 ∈ nameListOf [99,97,112,95,107,0x131,108,108,61,101,112] := by decide
+-- the pre-fix validator also accepted "cap_net_broadcaﬆ=p" (U+FB06 ↦ "ST": upper-casing may lengthen the string)
+example : validateCapsTextWith unicodeUpperSample [99,97,112,95,110,101,116,95,98,114,111,97,100,99,97,0xFB06,61,112] = .ok () ∧
+    demand [99,97,112,95,110,101,116,95,98,114,111,97,100,99,97,0xFB06,61,112] = .mustReject := by decide
 -- `caps_iff` is not vacuous: its hypothesis holds for accepted and for rejected texts
 example : ¬ DontCare [99,97,112,95,99,104,111,119,110,61,112] ∧ ¬ DontCare [61,101,32,43,112] := by decide
 -- the `debug_assert!` of `validate_suffix` is a real panic site of the helper on its own ("p")
